@@ -65,6 +65,31 @@ type checker struct {
 	slow     []slowCase
 	crashed  map[string][]int // deep shape -> depths that crashed (confirmed)
 	okDeep   map[string][]int // deep shape -> depths that ran to the end
+	sigs     map[string]int   // every violation signature of this run -> count (mon prints only the first 25 violations)
+}
+
+func (k *checker) violation(sig, detail string, replay any) {
+	if k.sigs == nil {
+		k.sigs = map[string]int{}
+	}
+	k.sigs[sig]++
+	k.d.Violation(sig, detail, replay)
+}
+
+func (k *checker) summary() {
+	if len(k.sigs) == 0 {
+		return
+	}
+	keys := make([]string, 0, len(k.sigs))
+	for s := range k.sigs {
+		keys = append(keys, s)
+	}
+	sort.Strings(keys)
+	fmt.Printf("C03 signatures of this run (%d):\n", len(keys))
+	for _, s := range keys {
+		fmt.Printf("  %4d x %s\n", k.sigs[s], s)
+	}
+	k.d.Extra("signatures", k.sigs)
 }
 
 func (k *checker) afterBatch(dir string, cases []mon.Case) {
@@ -197,7 +222,7 @@ func (k *checker) handle(c mon.Case, res mon.Result) {
 		sig := "panic:" + p.Stage + ":" + p.Site
 		detail := fmt.Sprintf("a Go panic propagated out of the embedding API (stage %s), recovered by the harness\npanic value: %s\ninnermost risor function: %s\nfamily: %s  class: %s\n--- source (%d bytes):\n%s\n--- stack:\n%s",
 			p.Stage, p.Value, p.Site, cd.Family, o.Class, o.SrcLen, mon.Truncate(o.Src, 2000), mon.Truncate(p.Stack, 2500))
-		d.Violation(sig, detail, replayOf(cd))
+		k.violation(sig, detail, replayOf(cd))
 	}
 }
 
@@ -299,7 +324,7 @@ func drive(d *mon.Driver, replay string) int {
 		"memory exhaustion by data size is excluded: value sizes are capped, a worker that exceeds 5 GB of live heap or is killed is inconclusive; a per-case watchdog of 45 s makes hangs inconclusive",
 		"a crash that needs a race between script threads (concurrent map access) is only reported when it repeats in the confirmation run",
 	}
-	k := &checker{d: d, samples: map[string]int{}, perFam: map[string]int{}, crashed: map[string][]int{}, okDeep: map[string][]int{}}
+	k := &checker{d: d, samples: map[string]int{}, perFam: map[string]int{}, crashed: map[string][]int{}, okDeep: map[string][]int{}, sigs: map[string]int{}}
 
 	if replay != "" {
 		var cd caseData
@@ -426,17 +451,10 @@ func drive(d *mon.Driver, replay string) int {
 	flush(srcOpts, true)
 
 	// ---- deep nesting: one process per case, few at a time (a 1 GB native stack each at worst)
-	depths := []int{10, 100, 1000, 10000, 100000}
-	if d.Thorough() {
-		depths = append(depths, 1000000)
-	}
 	for a, sh := range deepShapes {
-		for _, depth := range depths {
-			if sh.Max > 0 && depth > sh.Max {
-				continue
-			}
+		for _, depth := range sh.depths(d.Thorough()) {
 			icls := "deep-nesting"
-			if sh.Wide {
+			if sh.Kind == "wide" {
 				icls = "wide-source"
 			}
 			p.add("deep", caseData{Spec: &spec{Fam: "deep", A: a, B: depth}, InputClass: icls, DeadlineMS: 3000, FullStack: depth >= 100000, Conc: true})
@@ -508,14 +526,17 @@ func drive(d *mon.Driver, replay string) int {
 	flush(scrOpts, true)
 
 	// operations on really deep data and the special scripts: longer deadlines, default stack, one process each
-	deepDepths := []int{100000}
+	deepDepths := []int{30000}
 	if d.Thorough() {
-		deepDepths = append(deepDepths, 1000000)
+		deepDepths = []int{100000, 1000000}
 	}
 	for _, dd := range deepDepths {
 		for _, op := range deepOps {
+			if op.Renders && dd > 100000 {
+				continue
+			}
 			for _, a := range []string{"deep-list", "deep-map"} {
-				s := scriptSpec{Op: op, Args: []string{a, a, "int-1"}, Depth: dd}
+				s := scriptSpec{Op: op.Op, Args: []string{a, a, "int-1"}, Depth: dd}
 				src, class, icls := s.render()
 				p.add("script-deep", caseData{Src: &src, Class: fmt.Sprintf("%s@%d", class, dd), InputClass: icls, Script: &s, Conc: true, DeadlineMS: 20000, FullStack: true})
 			}
@@ -538,11 +559,22 @@ func drive(d *mon.Driver, replay string) int {
 	return d.Finish(d.N(60000, 1500000), d.N(20000, 200000))
 }
 
-// operations applied to 10^5 (thorough: 10^6) deep data
-var deepOps = []string{
-	"$a == $b", "$a != $b", "$a < $b", "$a in [$b]", "[$a] == [$b]", "sorted([$a, $b])", "len(string($a))", "print($a)", "len(sprintf(\"%v\", $a))",
-	"json.marshal($a)", "encode($a, \"json\")", "$a.copy() == $b", "{\"k\": $a} == {\"k\": $b}", "keys($a)", "len($a)", "is_hashable($a)", "hash(string($a))", "$a", "error(\"%v\", $a)", "try(func() { error($a) }, func(e) { return string(e) })",
-	"type($a)", "bool($a)", "list($a)", "[$a].index($b)", "[$a].count($b)", "[$a].remove($b)", "{\"k\": $a}.get(\"k\") == $b", "spawn(func(x) { return x }, $a).wait() == $b",
+// operations applied to really deep data (quick: 3*10^4, thorough: 10^5 and 10^6 levels). Results are
+// kept small except for "$a" itself; operations that render the value (quadratic in the depth) are
+// not run at 10^6.
+type deepOp struct {
+	Op      string
+	Renders bool
+}
+
+var deepOps = []deepOp{
+	{"$a == $b", false}, {"$a != $b", false}, {"$a < $b", false}, {"$a in [$b]", false}, {"[$a] == [$b]", false}, {"len(sorted([$a, $b]))", false},
+	{"json.marshal($a); 1", false}, {"len(encode($a, \"json\"))", false}, {"$a.copy() == $b", false}, {"{\"k\": $a} == {\"k\": $b}", false},
+	{"keys($a); 1", false}, {"len($a)", false}, {"is_hashable($a)", false}, {"type($a)", false}, {"bool($a)", false}, {"len(list($a))", false},
+	{"[$a].index($b)", false}, {"[$a].count($b)", false}, {"[$a].remove($b); 1", false}, {"{\"k\": $a}.get(\"k\") == $b", false},
+	{"spawn(func(x) { return x }, $a).wait() == $b", false}, {"x := $a; x = nil; 1", false},
+	{"len(string($a))", true}, {"print($a)", true}, {"len(sprintf(\"%v\", $a))", true}, {"hash(string($a)); 1", true}, {"$a", true},
+	{"error(\"%v\", $a)", true}, {"try(func() { error($a) }, func(e) { return len(string(e)) })", true},
 }
 
 // ---------------------------------------------------------------------------------------
@@ -622,7 +654,7 @@ func (k *checker) confirmAndReport(isReplay bool) {
 		s       suspect
 	}
 	results := map[string]outcome{}
-	k2 := &checker{d: d, samples: k.samples, perFam: k.perFam, crashed: k.crashed, okDeep: k.okDeep}
+	k2 := &checker{d: d, samples: k.samples, perFam: k.perFam, crashed: k.crashed, okDeep: k.okDeep, sigs: k.sigs}
 	d.RunPool(reruns, mon.PoolOpts{BatchSize: 1, Parallel: 4, NoRetry: true, BatchTimeout: 10 * time.Minute, AfterBatch: k2.afterBatch},
 		func(c mon.Case, res mon.Result) {
 			if res.Status == "done" {
@@ -634,7 +666,7 @@ func (k *checker) confirmAndReport(isReplay bool) {
 						var cd caseData
 						_ = json.Unmarshal(c.Data, &cd)
 						for _, p := range o.Panics {
-							d.Violation("panic:"+p.Stage+":"+p.Site, fmt.Sprintf("a Go panic propagated out of the embedding API (stage %s)\npanic value: %s\n--- source:\n%s\n--- stack:\n%s", p.Stage, p.Value, mon.Truncate(o.Src, 2000), mon.Truncate(p.Stack, 2500)), replayOf(cd))
+							k.violation("panic:"+p.Stage+":"+p.Site, fmt.Sprintf("a Go panic propagated out of the embedding API (stage %s)\npanic value: %s\n--- source:\n%s\n--- stack:\n%s", p.Stage, p.Value, mon.Truncate(o.Src, 2000), mon.Truncate(p.Stack, 2500)), replayOf(cd))
 						}
 					}
 				}
@@ -702,8 +734,9 @@ func (k *checker) confirmAndReport(isReplay bool) {
 		src := sourceOf(&orig.Data)
 		detail := fmt.Sprintf("the process died while executing the input (stage %s), and died again when the input was run alone under the default stack limit\n%s\nexit: %s\nrepeating functions in the fatal stack: %s\ninnermost risor function: %s\nfamily: %s  class: %s%s\n--- source (%d bytes):\n%s\n--- stderr of the dead process:\n%s",
 			normStage(s.Stage, s.Fatal), s.Fatal.Line, s.Exit, strings.Join(shortAll(s.Fatal.Repeating), ", "), s.Fatal.Innermost, orig.Data.Family, orig.Data.Class, note, len(src), mon.Truncate(src, 1500), mon.Truncate(s.Stderr, 2500))
-		d.Violation(sig, detail, replayOf(orig.Data))
+		k.violation(sig, detail, replayOf(orig.Data))
 	}
+	k.summary()
 }
 
 func shortAll(fs []string) []string {
